@@ -136,6 +136,13 @@ loop:
 		return "", "", inherited, errors.New("zero length string")
 	}
 
+	if offset == 0 {
+		// no separator found before the end of the file: a bare variable name on the last line is inherited
+		key = src
+		offset = len(src)
+		inherited = true
+	}
+
 	if inherited && strings.IndexByte(key, ' ') == -1 {
 		p.line++
 	}
